@@ -14,6 +14,7 @@ RULE = ("plans: upstream kind (origin behind direct, fake HTTP proxy, fake SOCKS
         "connections reset; restart: kill then re-bind with fresh state; black-hole: packets vanish then heal) x placement (proxy idle, right after a tunnel reached "
         "Connected, during connect/handshake, mid-transfer) x 1-3 repetitions, with healthy tunnels to a second upstream throughout; probes retry every 10 virtual s; "
         "non-trivial = an outage overlapped an open tunnel or an in-flight connect; distinct = event-order hash")
+RULE_MORE = 'Later additions: request storms during outages; one-second retry cadence; an origin that goes silent behind a shared upstream; blocking sleeps on the runtime thread are accounted and judged as affecting the healthy upstream.'
 LEVEL_TEXT = ("seeded exploration of the real connectors incl. the QUIC connector's shared long-lived connection: after the last heal some probe must succeed within 5 attempts "
               "and 120 virtual s and every later probe at once; tunnels open across a kill must end on both sides within 3 s; tunnels on the healthy upstream must "
               "satisfy byte-exact delivery throughout; the proxy process is never restarted (there is only one)")
